@@ -139,7 +139,7 @@ struct Gen {
     void spell(Op &op) {
 	op.i[2] = rng.chance(0.25);
 	op.i[3] = (long)(rng.chance(0.5) ? 0 : rng.chance(0.6) ? 1 : 2);
-	op.i[5] = (long)(rng.chance(0.75) ? 0 : rng.chance(0.7) ? 1 : 2);
+	op.i[5] = (long)(rng.chance(0.7) ? 0 : rng.chance(0.6) ? 1 : rng.chance(0.5) ? 2 : rng.range(3, 4));
 	op.i[6] = rng.chance(0.2);
     }
     std::string junk() {
